@@ -147,8 +147,7 @@ def _get_initial_guess(
     if isinstance(init, Sequence) and not isinstance(init, str):
         return ttb.ktensor(init).normalize("all")
     if isinstance(init, ttb.ktensor):
-        init.normalize("all")
-        return init
+        return init.copy().normalize("all")
     if init == "random":
         factor_matrices = []
         for n in range(data.ndims):
